@@ -1,2 +1,50 @@
-(* C17 - placeholder until the regex engine model is in place (see DESIGN 4/C17). *)
-From ES Require Import Base.
+(* C17 - the highlighting lexer is total and loses no text.
+   The rule table [pyg_table] is regenerated from the loaded lexer class on every run (Gen/PygTable.v), with two
+   facts about its regular expressions computed by the translator.  Regular expressions are an oracle
+   ([matcher rule position = Some length]); the theorems hold for every oracle. *)
+From ES Require Import Base Pyg.Engine Pyg.Proofs Gen.PygTable.
+
+(* obligations on the table as the source states it now *)
+Lemma pyg_table_ok : table_ok pyg_table = true.
+Proof. vm_compute. reflexivity. Qed.
+Lemma pyg_regex_facts : pyg_min_widths_ok = true /\ pyg_states_cover = true.
+Proof. split; vm_compute; reflexivity. Qed.
+Lemma pyg_no_error_rule : existsb (String.eqb "Token.Error") (rule_types pyg_table) = false.
+Proof. vm_compute. reflexivity. Qed.
+
+(* the concatenation of the token texts equals the input - for every text, every matcher, any fuel *)
+Theorem C17_lossless : forall matcher fuel s text pos toks,
+  lex pyg_table matcher fuel s text pos = Some toks -> concat (map snd toks) = text.
+Proof. intros matcher. exact (lex_lossless pyg_table matcher pyg_table_ok). Qed.
+Print Assumptions C17_lossless.
+
+(* the loop terminates on every text, given what pyg_min_widths_ok states (no rule matches the empty
+   string) and that a match ends inside the text *)
+Theorem C17_total : forall matcher (text : text),
+  (forall r p n, matcher r p = Some n -> 0 < n) ->
+  (forall r p n, matcher r p = Some n -> p + n <= length text) ->
+  exists toks, lex pyg_table matcher (S (length text)) ["root"%string] text 0 = Some toks.
+Proof.
+  intros matcher text H1 H2.
+  apply (lex_total pyg_table matcher (length text) H1 H2); [reflexivity | lia].
+Qed.
+Print Assumptions C17_total.
+
+(* no error token at all, given what pyg_states_cover states (in every state some rule matches at every
+   position inside the text) *)
+Theorem C17_no_error_token : forall matcher (text : text) fuel toks,
+  (forall r p n, matcher r p = Some n -> p + n <= length text) ->
+  (forall st pos, has pyg_table st -> pos < length text -> first_match matcher (rules_of pyg_table st) pos <> None) ->
+  lex pyg_table matcher fuel ["root"%string] text 0 = Some toks ->
+  forall tk, In tk toks -> fst tk <> "Token.Error"%string.
+Proof.
+  intros matcher text fuel toks H2 Hc Hl tk Htk E.
+  assert (Hg : good pyg_table ["root"%string]).
+  { split; [discriminate|]. constructor; [|constructor]. unfold has. vm_compute. discriminate. }
+  pose proof (lex_tokens_from_rules pyg_table matcher (length text) H2 Hc pyg_table_ok fuel _ text 0 toks eq_refl Hg Hl tk Htk) as Hin.
+  rewrite E in Hin. pose proof pyg_no_error_rule as Hn.
+  assert (existsb (String.eqb "Token.Error") (rule_types pyg_table) = true).
+  { apply existsb_exists. exists "Token.Error"%string. split; [exact Hin | apply String.eqb_refl]. }
+  congruence.
+Qed.
+Print Assumptions C17_no_error_token.
